@@ -158,6 +158,15 @@ class WcMachine(Machine):
         return base
 
     def _gen_wc_line(self, w, limit):
+        live = [x for x in self.slots if x is not None and not is_contig(x["mask"])]
+        if live and w.random() < 0.25:
+            # sibling of a live object: same network and non-contiguous bits, another low run
+            x = w.choice(live)
+            r, ncw = split_mask(x["mask"])
+            r2 = w.choice([v for v in range(0, min(ncw)) if v != r] or [r])
+            mask = (x["mask"] >> r << r) | ((1 << r2) - 1)
+            base = x["base"] & ~mask & ALL
+            return f"{ip(base)} {ip(mask)}"
         mask = self._gen_mask(w, limit)
         base = self._gen_base(w, mask)
         sep = w.choice([" ", " ", "  ", " \t"])
